@@ -37,3 +37,35 @@ def pradians (x : ℝ) : ℝ := x * (Real.pi / 180)
 def pdegrees (x : ℝ) : ℝ := x * (180 / Real.pi)
 
 end Pymeeus.PR
+
+noncomputable section
+namespace Pymeeus.PR
+/-! Additions for the Angle model (C03/C04). -/
+
+def pow10 (n : Int) : ℝ := (10 : ℝ) ^ n
+
+/-- `round(x, n)`: nearest multiple of `10**-n`, ties to even. -/
+def proundn (x : ℝ) (n : Int) : ℝ :=
+  let y := x * pow10 n
+  let f : Int := ⌊y⌋
+  let r := y - f
+  let k : Int := if r < 1/2 then f else if 1/2 < r then f + 1 else if f % 2 = 0 then f else f + 1
+  (k : ℝ) / pow10 n
+
+/-- `x ** n` for a float `x` and an `int` `n`. -/
+def ppowi (x : ℝ) (n : Int) : PyRes ℝ :=
+  if n ≥ 0 then .ok (x ^ n.toNat)
+  else if x = 0 then .error .zeroDivisionError
+  else .ok (1 / x ^ (-n).toNat)
+
+/-- `x ** w` on floats, ideal reading: `.typeError` stands for the complex result of a negative
+    base with a non-integer exponent (see `PF.ppow`). -/
+def ppow (x w : ℝ) : PyRes ℝ :=
+  if w = 0 then .ok 1
+  else if x = 0 then (if w < 0 then .error .zeroDivisionError else .ok 0)
+  else if x < 0 then (if w = (⌊w⌋ : ℤ) then .ok (x ^ (⌊w⌋ : ℤ)) else .error .typeError)
+  else .ok (Real.rpow x w)
+
+def pmodE (x y : ℝ) : PyRes ℝ := if y = 0 then .error .zeroDivisionError else .ok (pmod x y)
+
+end Pymeeus.PR
